@@ -38,6 +38,12 @@ func runStoreArea(cfg *config, flavour string, n int) error {
 	results := storeRunAll(scripts, 8)
 	for i, s := range results {
 		s.ID = i
+		if flavour == "c03" && !s.Crashed {
+			s.Key = c03Key(s)
+			if s.Key != "" {
+				cs.count("key:" + s.Key)
+			}
+		}
 		cs.add(s.val(), s)
 		cs.count(fmt.Sprintf("ops:%d", (len(s.Ops)/5)*5))
 		cs.count(fmt.Sprintf("edges-at-end:%d", func() int {
@@ -64,4 +70,111 @@ func runStoreArea(cfg *config, flavour string, n int) error {
 		}
 	}
 	return cs.write(cfg.out)
+}
+
+// c03Key: "xor-cancel-even-paths" when every ancestor edge whose hash did not change after a
+// content-changing accepted write is reached from the written node by an even number of upward
+// walks (the XOR Merkle definition itself cancels there); "" otherwise.
+func c03Key(s *sScript) string {
+	found := false
+	before := s.Init
+	for _, t := range s.Steps {
+		after := t.Dump
+		if t.Reply == 0 {
+			ok, any := c03StepEven(before, after, t.Op)
+			if !ok {
+				return ""
+			}
+			if any {
+				found = true
+			}
+		}
+		before = after
+	}
+	if found {
+		return "xor-cancel-even-paths"
+	}
+	return ""
+}
+
+func c03PointsKey(ps []sPoint) string {
+	var items []string
+	for _, p := range ps {
+		items = append(items, fmt.Sprintf("%s|%s|%d|%d|%s", p.Type, p.Key, p.Time, p.VBits, p.Text))
+	}
+	sortStrings(items)
+	return fmt.Sprint(items)
+}
+
+// returns (all unchanged ancestors have even path counts, some unchanged ancestor exists)
+func c03StepEven(before, after []sView, op sOp) (bool, bool) {
+	find := func(vs []sView, up, down string) *sView {
+		for i := range vs {
+			if vs[i].Up == up && vs[i].Down == down {
+				return &vs[i]
+			}
+		}
+		return nil
+	}
+	// number of upward walks from x to y in the graph after the write
+	memo := map[string]int{}
+	var paths func(x, y string, depth int) int
+	paths = func(x, y string, depth int) int {
+		if x == y {
+			return 1
+		}
+		if depth > 40 {
+			return 0
+		}
+		k := x + ">" + y
+		if v, ok := memo[k]; ok {
+			return v
+		}
+		n := 0
+		for _, v := range after {
+			if v.Down == x {
+				n += paths(v.Up, y, depth+1)
+			}
+		}
+		memo[k] = n
+		return n
+	}
+	start := op.Node
+	changed := false
+	if op.Kind == "np" {
+		for _, v := range after {
+			if v.Down == op.Node {
+				if b := find(before, v.Up, v.Down); b != nil && c03PointsKey(b.NPts) != c03PointsKey(v.NPts) {
+					changed = true
+				}
+			}
+		}
+	} else {
+		b, a := find(before, op.Parent, op.Node), find(after, op.Parent, op.Node)
+		if b != nil && a != nil && c03PointsKey(b.EPts) != c03PointsKey(a.EPts) {
+			changed = true
+			start = op.Parent
+			if b.Hash == a.Hash {
+				return false, true // the written edge itself must change
+			}
+		}
+	}
+	if !changed {
+		return true, false
+	}
+	allEven, any := true, false
+	for _, v := range after {
+		if paths(start, v.Down, 0) == 0 {
+			continue
+		}
+		b := find(before, v.Up, v.Down)
+		if b == nil || b.Hash != v.Hash {
+			continue
+		}
+		any = true
+		if paths(start, v.Down, 0)%2 != 0 {
+			allEven = false
+		}
+	}
+	return allEven, any
 }
